@@ -75,6 +75,27 @@ def _pretty_registered(v, ctx):
     return pp.pretty_call_alt(ctx, Registered, args=(v.payload,))
 
 
+class RegisteredSub(Registered):
+    """no printer of its own: printed by the printer of its base class, also through the inherited __repr__ = pretty_repr"""
+
+
+class ByName:
+    """registered by dotted name (pending until first used), __repr__ = pretty_repr"""
+    __repr__ = pp.pretty_repr
+
+    def __init__(self, payload):
+        self.payload = payload
+
+
+@pp.register_pretty(ByName.__module__ + '.' + ByName.__qualname__)
+def _pretty_byname(v, ctx):
+    return pp.pretty_call_alt(ctx, ByName, args=(v.payload,))
+
+
+class ByNameSub(ByName):
+    pass
+
+
 _drv = None
 
 
@@ -128,6 +149,11 @@ def chunk_fn(cases):
                 obs['pformat(all six explicit)'] = pp.pformat(value, **e_spec)
                 obs['pretty_repr'] = repr(Registered(value))
                 obs['pformat(Registered)'] = pp.pformat(Registered(value))
+                # the same entry point for a subclass of a registered type and for types registered by name (repr first: the entry is
+                # pending when pretty_repr looks the type up)
+                pp.register_pretty(ByName.__module__ + '.' + ByName.__qualname__)(_pretty_byname)
+                obs['pretty_repr(others)'] = [repr(RegisteredSub(value)), repr(ByNameSub(value)), repr(ByName(value))]
+                obs['pformat(others)'] = [pp.pformat(RegisteredSub(value)), pp.pformat(ByNameSub(value)), pp.pformat(ByName(value))]
         except Exception as e:
             obs['error'] = '%s: %s' % (type(e).__name__, e)
         finally:
@@ -174,6 +200,8 @@ def chunk_fn(cases):
             bad = 'PrettyPrinter.pprint != pformat + end'
         elif obs['pretty_repr'] != obs['pformat(Registered)']:
             bad = 'pretty_repr != pformat for a registered type'
+        elif obs['pretty_repr(others)'] != obs['pformat(others)']:
+            bad = 'pretty_repr != pformat for a subclass of a registered type / a type registered by name: %r vs %r' % (obs['pretty_repr(others)'], obs['pformat(others)'])
         elif obs['pformat(all six explicit)'] != obs['pformat']:
             bad = 'an explicit argument is not honoured or a missing one does not take the configured default: pformat(v, **given) != pformat(v, **effective)'
         elif dflt != d_spec:
